@@ -55,6 +55,9 @@ Local Ltac step := rewrite (denote_eq G); cbn [Peg.den1 bind fst snd].
 Lemma parses_tag (a r : str) : parses (Tag a) (a ++ r) (TStr a) r.
 Proof. exists 0. intros f _. step. rewrite prefix_app. reflexivity. Qed.
 
+Lemma parses_tag_lit (a s r : str) : prefix a s = Some r -> parses (Tag a) s (TStr a) r.
+Proof. intros H. exists 0. intros f _. step. rewrite H. reflexivity. Qed.
+
 Lemma fails_tag (a s : str) : prefix a s = None -> fails (Tag a) s.
 Proof. intros H. exists 0. intros f _. step. rewrite H. reflexivity. Qed.
 
